@@ -141,6 +141,15 @@ def wfSizesL : List Cell → Bool
   | c :: cs => wfSizes c && wfSizesL cs
 end
 
+mutual
+/-- every level mask of the tree has three bits (all a bag of cells can encode) -/
+def wfMasks : Cell → Bool
+  | .mk _ mask _ refs => decide (mask ≤ 7) && wfMasksL refs
+def wfMasksL : List Cell → Bool
+  | [] => true
+  | c :: cs => wfMasks c && wfMasksL cs
+end
+
 /-! ### depth limit -/
 
 def maxDepth : Nat := 1024
